@@ -949,4 +949,5 @@ def extra(ctx):
                     ctx.problems.append(dict(kind="correspondence",
                                              detail=f"cancel sweep path={path} d={d}: leaf left open, result {out[0]}",
                                              input=sx.to_text(inp + [d])))
+                    ctx.extra_suspects = getattr(ctx, "extra_suspects", []) + [inp + [d]]
     return dict(cancel_sweep_runs=runs, cancel_sweep_failures=bad, params_source=PARAMS_SOURCE)
